@@ -2,7 +2,7 @@
    predicate hold on the observation?, is the case non-trivial?). Generated case files import
    this module only. *)
 From NS Require Export Observe.
-From NS Require TablesOk.
+From NS Require ErrList.
 
 Definition judge_full (c : icase) : bool * bool * bool := (agree_full c, true, true).
 
@@ -493,7 +493,7 @@ Definition judge_C12 (c : icase) : bool * bool * bool :=
   let agree := agree_full c in
   let no_panic := match ic_obs c with ObsPanic _ => false | _ => true end in
   let typed := match ic_obs c with
-               | ObsErr n _ _ => mem_str n (map err_name TablesOk.all_errs)
+               | ObsErr n _ _ => mem_str n (map err_name ErrList.all_errs)
                | _ => true end in
   let fault := match ic_fail c, ic_obs c with
                | Some _, ObsErr n _ msg =>
@@ -548,6 +548,9 @@ Definition prop_C09 (c : splitcase) : bool :=
      running the first one, so an error of a later statement can win over an earlier MissingFunds *)
   | ObsErr _ _ _, ObsErr _ _ _, _ => true
   | ObsErr _ _ _, ObsOk _ _ _ _, Some (ObsErr _ _ _) => true
+  (* the harness could not compute the balances left by the first part (a save whose amount it
+     cannot read, a prefix that fails): there is no second execution to compare with *)
+  | _, ObsOk _ _ _ _, None => true
   | _, _, _ => false
   end.
 
@@ -623,7 +626,7 @@ Definition judge_C09 (c : splitcase) : bool * bool * bool :=
         end
     end in
   (agree_whole && agree_bal, prop_C09 c && last_write_wins c,
-   match sc_whole c with ObsOk ps _ _ _ => negb (Nat.eqb (List.length ps) 0) | _ => false end).
+   match sc_whole c, sc_second c with ObsOk ps _ _ _, Some _ => negb (Nat.eqb (List.length ps) 0) | _, _ => false end).
 
 (* ======================= C10: store independence ======================= *)
 From NS Require Import SheetRun.
